@@ -311,6 +311,15 @@ func privacyMain(rc *RunCtx) {
 		if proxied && p.Inbound && p.Ready {
 			rc.Fail("C18", "incoming-accepted", "", "a proxied torrent accepted the incoming connection of %s", p.Cfg.Name)
 		}
+		if proxied {
+			// every extended handshake, not only the latest one
+			for k, h := range p.SysExtAll {
+				if h.HasV || h.HasP || h.IPv6 != nil {
+					rc.Fail("C18", "handshake-reveals", "", "extended handshake %d of %d that a proxied torrent sent to %s carries v=%q p=%d ipv6=%x", k+1, len(p.SysExtAll), p.Cfg.Name, h.V, h.P, h.IPv6)
+					break
+				}
+			}
+		}
 		if p.SysExt == nil {
 			continue
 		}
